@@ -9,6 +9,7 @@ from typing import (
     List,
     Optional,
     Protocol,
+    Set,
     Tuple,
     Union,
     cast,
@@ -108,30 +109,72 @@ class PDFObjRef(PDFObject):
             return default
 
 
+def _resolve_ref(x: object, default: object, visited: Set[int]) -> Any:
+    """Follows a chain of indirect references to the first direct object.
+
+    A chain that leads back to an object id in `visited` is a circular
+    reference. It resolves to `default`, just like a reference to a missing
+    object. The object ids that were followed are added to `visited`.
+    """
+    while isinstance(x, PDFObjRef):
+        if x.objid in visited:
+            if settings.STRICT:
+                raise PDFValueError("Circular reference: %r" % x)
+            logger.warning("Ignoring circular reference: %r", x)
+            return default
+        visited.add(x.objid)
+        x = x.resolve(default=default)
+    return x
+
+
 def resolve1(x: object, default: object = None) -> Any:
     """Resolves an object.
 
     If this is an array or dictionary, it may still contains
     some indirect objects inside.
     """
-    while isinstance(x, PDFObjRef):
-        x = x.resolve(default=default)
+    if isinstance(x, PDFObjRef):
+        x = _resolve_ref(x, default, set())
     return x
 
 
-def resolve_all(x: object, default: object = None) -> Any:
+def resolve_all(
+    x: object,
+    default: object = None,
+    _resolving: Optional[Set[Tuple[str, int]]] = None,
+) -> Any:
     """Recursively resolves the given object and all the internals.
 
     Make sure there is no indirect reference within the nested object.
     This procedure might be slow.
+
+    An object that contains itself cannot be resolved completely: the inner
+    occurrence resolves to `default`.
     """
-    while isinstance(x, PDFObjRef):
-        x = x.resolve(default=default)
+    if not isinstance(x, (PDFObjRef, list, dict)):
+        return x
+    if _resolving is None:
+        _resolving = set()
+    # The indirect objects and the containers that are being resolved right
+    # now. Containers are tracked too, because resolved values are stored
+    # back into dictionaries and can tie direct objects into a loop as well.
+    entered: Set[Tuple[str, int]] = set()
+    if isinstance(x, PDFObjRef):
+        objids: Set[int] = set()
+        x = _resolve_ref(x, default, objids)
+        entered.update(("objid", objid) for objid in objids)
+    if isinstance(x, (list, dict)):
+        entered.add(("id", id(x)))
+    if not entered.isdisjoint(_resolving):
+        logger.warning("Ignoring an object that contains itself")
+        return default
+    _resolving |= entered
     if isinstance(x, list):
-        x = [resolve_all(v, default=default) for v in x]
+        x = [resolve_all(v, default=default, _resolving=_resolving) for v in x]
     elif isinstance(x, dict):
         for k, v in x.items():
-            x[k] = resolve_all(v, default=default)
+            x[k] = resolve_all(v, default=default, _resolving=_resolving)
+    _resolving -= entered
     return x
 
 
